@@ -2,7 +2,7 @@
    a case is an operation name and a list of generic arguments; the answer is a generic
    output value.  The OCaml driver (eval/driver.ml) only parses / prints these types. *)
 From Coq Require Import String.
-From ArrRs Require Import Base Arr Index.
+From ArrRs Require Import Base Arr Index Axis.
 Open Scope string_scope.
 
 Inductive arg :=
@@ -49,7 +49,50 @@ Definition table_index : list (string * (list arg -> out)) :=
        | [AA sh es; AZ i] => out_res OZ (index_usize (mka sh es) (Z.to_nat i)) | _ => OBad end)
   ].
 
-Definition table : list (string * (list arg -> out)) := table_index.
+Definition optl (a : arg) : option (option (list Z)) :=
+  match a with AN => Some None | AL l => Some (Some l) | _ => None end.
+Definition optz (a : arg) : option (option Z) :=
+  match a with AN => Some None | AZ z => Some (Some z) | _ => None end.
+Definition optn (a : arg) : option (option nat) :=
+  match a with AN => Some None | AZ z => Some (Some (Z.to_nat z)) | _ => None end.
+Definition orarr (r : res (arr Z)) : out := out_res oarr r.
+
+Definition table_axis : list (string * (list arg -> out)) :=
+  [ ("new", fun args => match args with
+       | [AL es; AL sh] => orarr (new es (nats sh)) | _ => OBad end)
+  ; ("create", fun args => match args with
+       | [AL es; AL sh; nd] => match optn nd with Some nd => orarr (create es (nats sh) nd) | None => OBad end
+       | _ => OBad end)
+  ; ("single", fun args => match args with [AZ x] => orarr (single x) | _ => OBad end)
+  ; ("flat", fun args => match args with [AL es] => orarr (flat_arr es) | _ => OBad end)
+  ; ("empty", fun args => match args with [] => orarr empty | _ => OBad end)
+  ; ("transpose", fun args => match args with
+       | [AA sh es; ax] => match optl ax with Some ax => orarr (transpose 0%Z (mka sh es) ax) | None => OBad end
+       | _ => OBad end)
+  ; ("moveaxis", fun args => match args with
+       | [AA sh es; AL s; AL d] => orarr (moveaxis 0%Z (mka sh es) s d) | _ => OBad end)
+  ; ("rollaxis", fun args => match args with
+       | [AA sh es; AZ ax; st] => match optz st with Some st => orarr (rollaxis 0%Z (mka sh es) ax st) | None => OBad end
+       | _ => OBad end)
+  ; ("swapaxes", fun args => match args with
+       | [AA sh es; AZ x; AZ y] => orarr (swapaxes 0%Z (mka sh es) x y) | _ => OBad end)
+  ; ("expand_dims", fun args => match args with
+       | [AA sh es; AL ax] => orarr (expand_dims (mka sh es) ax) | _ => OBad end)
+  ; ("squeeze", fun args => match args with
+       | [AA sh es; ax] => match optl ax with Some ax => orarr (squeeze (mka sh es) ax) | None => OBad end
+       | _ => OBad end)
+  ; ("reshape", fun args => match args with
+       | [AA sh es; AL s] => orarr (reshape (mka sh es) (nats s)) | _ => OBad end)
+  ; ("ravel", fun args => match args with [AA sh es] => orarr (ravel (mka sh es)) | _ => OBad end)
+  ; ("atleast", fun args => match args with
+       | [AA sh es; AZ n] => orarr (atleast (mka sh es) (Z.to_nat n)) | _ => OBad end)
+  ; ("resize", fun args => match args with
+       | [AA sh es; AL s] => orarr (resize 0%Z (mka sh es) (nats s)) | _ => OBad end)
+  ; ("cycle_take", fun args => match args with
+       | [AA sh es; AZ n] => orarr (cycle_take 0%Z (mka sh es) (Z.to_nat n)) | _ => OBad end)
+  ].
+
+Definition table : list (string * (list arg -> out)) := table_index ++ table_axis.
 
 Fixpoint lookup (name : string) (t : list (string * (list arg -> out))) : option (list arg -> out) :=
   match t with
